@@ -7,7 +7,7 @@
    in the whitened diagonal case and the resulting bound along the KL term (_partial). *)
 From Coq Require Import Reals Arith List.
 From GPV Require Import Base.LinAlg Base.Exec Base.Expr Models.C02_mll Proofs.C02_mll
-  Models.C15_elbo Proofs.C15_elbo Proofs.C15_real.
+  Models.C15_elbo Proofs.C15_elbo Proofs.C15_real Proofs.C15_gap.
 Import ListNotations.
 
 (* the objective as coded (/num_batch, /(num_data/beta), priors /num_data, added losses as they
@@ -79,6 +79,33 @@ Theorem c15_optimal_q_is_posterior_mean :
             (opt_theta m n Kinv Kzx Di r).
 Proof. intros K. exact (@opt_mean_natural K). Qed.
 Print Assumptions c15_optimal_q_is_posterior_mean.
+
+(* maximum over q(u), MEAN direction (all sizes): the mean-dependent part of the full-batch ELBO
+   G(mq) = -1/2 (r - C d)^T D^-1 (r - C d) - 1/2 d^T Kzz^-1 d,  d = mq - mz, C = Kxz Kzz^-1, falls short of
+   its value at the posterior mean m* by exactly 1/2 [ (C h)^T D^-1 (C h) + h^T Kzz^-1 h ], h = mq - m*.
+   PARTIAL w.r.t. the property: the covariance direction (-1/2 tr(P S) + 1/2 log det S is maximal at
+   S = P^-1) needs log-det concavity, out of reach (DESIGN 9.3); it is tested. *)
+Theorem c15_optimal_mean_gap_partial :
+  forall (K : Fld) m n (Kzz Kinv Kzx Di Si mz r mq : M),
+    symmetric m Kzz -> symmetric n Di -> fadd f1 f1 <> f0 ->
+    is_inverse m Kzz Kinv -> is_inverse m (opt_Sigma n Kzz Kzx Di) Si ->
+    let ms := opt_mean m n Kzz Kzx Di Si mz r in
+    fsub (elbo_mean_part m n Kinv Kzx Di mz r ms) (elbo_mean_part m n Kinv Kzx Di mz r mq)
+    = fdiv (fadd (quadf n Di (mmul m (mmul m (mT Kzx) Kinv) (msub mq ms))) (quadf m Kinv (msub mq ms)))
+           (fadd f1 f1).
+Proof. intros K. exact (@elbo_mean_gap_opt K). Qed.
+Print Assumptions c15_optimal_mean_gap_partial.
+
+(* hence over R, with D^-1 and Kzz^-1 positive semi-definite, no variational mean beats m* *)
+Theorem c15_optimal_mean_is_maximiser_partial :
+  forall m n (Kzz Kinv Kzx Di Si mz r mq : @M RF),
+    @symmetric RF m Kzz -> @symmetric RF n Di ->
+    @is_inverse RF m Kzz Kinv -> @is_inverse RF m (@opt_Sigma RF n Kzz Kzx Di) Si ->
+    (forall x : @M RF, (0 <= @quadf RF n Di x)%R) -> (forall x : @M RF, (0 <= @quadf RF m Kinv x)%R) ->
+    (@elbo_mean_part RF m n Kinv Kzx Di mz r mq
+     <= @elbo_mean_part RF m n Kinv Kzx Di mz r (@opt_mean RF m n Kzz Kzx Di Si mz r))%R.
+Proof. exact elbo_mean_maximal. Qed.
+Print Assumptions c15_optimal_mean_is_maximiser_partial.
 
 (* KL(q(u)||p(u)) >= 0 for a whitened mean-field q(u) (every size); full covariance needs
    log det / trace inequalities that are out of reach: partial *)
